@@ -47,6 +47,9 @@ def script_sized(fx, f, l, depth=0, seen=None):
             if rv[0] == "agg" and rv[1].get("k") == "closure":
                 continue
             for pl in F.rvalue_places(rv):
+                # the payload of PropertyKey::Index is whatever index the script wrote
+                if any(adt == "value::PropertyKey" and vn == "Index" for (adt, vn, _) in F.place_fields(pl)):
+                    return True
                 if script_sized(fx, f, pl[0], depth + 1, seen):
                     return True
     return False
@@ -82,7 +85,7 @@ def bounded(fx, f, block, local):
     return False
 
 
-def sites(fx, scope=("src/interpreter",)):
+def sites(fx, scope=("src/interpreter", "src/value.rs", "src/api.rs", "src/gc.rs", "src/string_dict.rs")):
     for f in fx.fns.values():
         if not f.file.startswith(scope) or f.derived:
             continue
